@@ -152,6 +152,31 @@ def run_tlc_trace(trace, meta, module="MCTrace"):
     return res
 
 
+def run_apalache(path, lemmas, init="IndInit", timeout=300):
+    """Unbounded lemmas (spec/ind/*.tla): for each (next, action invariant) Apalache checks one step from ANY state satisfying `init`.
+    Returns the record format of run_mc; a timeout or a missing tool is recorded (not proved), a counterexample is a model error."""
+    d = os.path.join(WORK, "apalache-%d" % os.getpid())
+    shutil.rmtree(d, ignore_errors=True)
+    os.makedirs(d)
+    t0 = time.time()
+    proved, failed, unknown = [], [], []
+    for nxt, inv in lemmas:
+        try:
+            rc, out = sh(["apalache-mc", "check", "--init=" + init, "--next=" + nxt, "--inv=" + inv, "--length=1", "--out-dir=" + os.path.join(d, "out"), path], timeout=timeout, cwd=d)
+        except Exception as e:  # timeout, tool missing
+            unknown.append("%s/%s (%s)" % (nxt, inv, type(e).__name__))
+            continue
+        if "The outcome is: NoError" in out:
+            proved.append("%s/%s" % (nxt, inv))
+        elif "The outcome is: Error" in out:
+            failed.append("%s/%s" % (nxt, inv))
+        else:
+            unknown.append("%s/%s (rc %s)" % (nxt, inv, rc))
+    shutil.rmtree(d, ignore_errors=True)
+    return {"ok": not failed, "timeout": False, "apalache": True, "states": 0, "distinct": 0, "depth": 1, "violated": failed, "proved": proved, "not_proved": unknown,
+            "out": "", "wall_s": time.time() - t0}
+
+
 def run_sim(module, cfg, seconds, depth=80, workers=NCPU, seed=1):
     """Random simulation of a model too large to enumerate (TLC -simulate), for a fixed time: behaviours of `depth` steps are drawn until
     the time is over; every property and invariant of the cfg is checked on each. Returns the same record as run_mc (not exhaustive)."""
